@@ -5,6 +5,8 @@ from fractions import Fraction as Fr
 import numpy as np
 
 from .. import engine, refmodel as rm
+from .. import histories
+from ..histories import t_callhist        # worker task of the history harness (mc/histories.py)
 
 PID = 'C01'
 MOD = 'mc.props.c01'
@@ -250,6 +252,8 @@ def chk_inv(case, acc, seed):
 DISPATCH = {'fwd': chk_fwd, 'inv': chk_inv, 'outdtype': chk_out_dtype, 'large': chk_large, 'aftererr': chk_after_error}
 
 
+DISPATCH['histop'] = histories.chk_case
+
 def t_sub(arg, acc):
     tier, seed, ctx = arg['tier'], arg['seed'], arg['ctx']
     ax = axes(tier)
@@ -277,6 +281,7 @@ def run(tier, seed, acc, procs=None):
         tasks.append(('t_extra', {'seed': seed, 'case': {'kind': 'large', 'm': m, 'n': n}}))
     for m, n in ((3, 3), (4, 5), (17, 16)):
         tasks.append(('t_extra', {'seed': seed, 'case': {'kind': 'aftererr', 'm': m, 'n': n}}))
+    tasks += histories.tasks_for(PID, seed)        # pairwise call histories over the operations this property is anchored in
     engine.run_parallel(MOD, tasks, acc, procs)
     return {
         'rule': 'full cross product input shape x output shape x alpha (scalar/pair, incl. full period, negative, '
@@ -292,5 +297,8 @@ def run(tier, seed, acc, procs=None):
 
 
 def replay(case, acc):
+    if case.get('kind') == 'histop':
+        import os as _os
+        return histories.chk_case(case, acc, int(_os.environ.get('VERIF_SEED', '0') or 0))
     seed = int(os.environ.get('VERIF_SEED', '0') or 0)
     DISPATCH[case['kind']](case, acc, seed)
